@@ -220,7 +220,10 @@ def minimise(cfg, stim, clause, known, budget=500):
 
     def fails(c):
         left[0] -= 1
-        _, fs, _ = evaluate(cfg, c)
+        try:
+            _, fs, _ = evaluate(cfg, c)
+        except Exception:      # a candidate that cannot be evaluated is not a reduction
+            return False
         return any(f["clause"] == clause and match_known(known, f) is None for f in fs)
     progress = True
     while progress and left[0] > 0:
